@@ -19,7 +19,8 @@ FUNCTIONS = [(PT.FILE, 'GULP_PairTabulation._write_pot'), (PT.FILE, 'GULP_PairTa
              (FF.FILE, '_writeHeader'), (FF.FILE, '_writeValueBlock'), (FF.FILE, 'writeFuncFL'),
              (XS.FILE, 'Excel_PairTabulation._populate_worksheet'), (XS.F_PT, '_r_value_iterator'), (XS.F_ET, '_rho_value_iterator'),
              (XS.F_ET, 'Excel_EAMTabulation._add_eam_embed'), (XS.F_ET, 'Excel_EAMTabulation._add_eam_density'),
-             (XS.F_ET, 'Excel_FinnisSinclair_EAMTabulation._add_eam_density'), (XS.F_PT, 'Excel_PairTabulation._add_pair_worksheet'), (XS.F_PT, '_r_value_iterator@pair')]
+             (XS.F_ET, 'Excel_FinnisSinclair_EAMTabulation._add_eam_density'), (XS.F_PT, 'Excel_PairTabulation._add_pair_worksheet'), (XS.F_PT, '_r_value_iterator@pair'),
+             (XS.F_PT, 'Excel_PairTabulation._build_workbook')]
 SPECSEQS = [GU.grows, FF.grid, FF.fcol, FF.ch1, FF.ch2, FF.ch3, XS.grid_seq]
 
 def lemmas():
@@ -78,6 +79,7 @@ MUTANTS = [
     (XS.F_ET, 'Excel_EAMTabulation._add_eam_density', "wb.create_sheet('EAM-Density')", "wb.create_sheet('EAM-Embed')", 'post'),
     (XS.F_PT, 'Excel_PairTabulation._add_pair_worksheet', "sorted([p.speciesA, p.speciesB])", "[p.speciesA, p.speciesB]", 'preserve/0'),
     (XS.F_PT, 'Excel_PairTabulation._add_pair_worksheet', "pot_dict[k] = v", "pot_dict.setdefault(k, v)", 'preserve/0'),
+    (XS.F_PT, 'Excel_PairTabulation._build_workbook', "wb.remove(wb.active)", "self._workbook = wb\n    wb.remove(wb.active)", 'on-raise'),
 ]
 ASSUMPTIONS = ['A1: float as real', 'A7: GULP "spline cubic" library format; LAMMPS pair_style adp layout (u blocks then w blocks, lower triangle, unscaled)', 'A6: openpyxl cell model (contracts/excel.py: ws["A1"], ws.cell, iter_cols over one row, cell.value writing through to its sheet)']
 BOUNDED = [dict(name='the Excel sheets as whole workbooks: the assembly of the workbook from the verified sheets (_add_sheets, _build_workbook, the lazily built workbook property), saving and re-reading with openpyxl (and funcfl on the real code as a cross-check)', bound='seeded models, quick 60 / thorough 1500 cases',
